@@ -218,6 +218,10 @@ HASHSEED_PROGRAMS = [
     "x = {3, 1, 2, 1, 3}\ny = {'b': 1, 'a': 2, 'b': 3}\nprint(x, y)\n",
     "def g(a):\n    return a\n\n\ndef h(b):\n    return b\n\n\ndef k(c):\n    return c\n\n\nprint(g(1), h(2), k(3))\n",
     "import numpy\nimport pandas\nfrom os import path, sep, getcwd\n\nclass A:\n    def m(self):\n        return 1\n    def n(self):\n        return path\n",
+    # an overused constant inside a function that starts on the first line of the file (module and function tie
+    # on the line number when the scope of the new variable is chosen from a set of nodes)
+    "def main():\n    a = 'a long constant string'\n    b = 'a long constant string'\n    c = 'a long constant string'\n    d = 'a long constant string'\n"
+    "    e = 'a long constant string'\n    return a + b + c + d + e\n\n\nprint(main())\n",
 ]
 
 
